@@ -468,6 +468,25 @@ func (c *Ctx) checkDefaultStores(rule string) {
 				}
 				if guarded {
 					c.R.Ok(rule, k, c.M.InstrPos(mu), "default applied", "dominated by a failed lookup of the same key in the same map: a supplied value is never overridden")
+					// ... and only for a property that may be used: the property's own operations refuse a disabled property
+					// whatever its value (R-DISABLED), so a value that is put in for an unset disabled property makes the
+					// object refuse every input that leaves it out - the input did not use it.
+					k2 := key(rule, c.M.Key(fn), sprintf("default store #%d not for a disabled property", idx))
+					enabled := core.MustHold(fn, func(cond core.Cond) bool {
+						ld, isLoad := cond.V.(*ssa.UnOp)
+						if !isLoad || ld.Op != token.MUL || cond.True {
+							return false
+						}
+						fa, isField := ld.X.(*ssa.FieldAddr)
+						return isField && fieldName(fa.X.Type(), fa.Field) == "Disabled" && isNamedPtr(fa.X.Type(), "PropertySchema") &&
+							!strings.HasPrefix(c.M.CondPath(fn, cond, fa.X), "%foreign")
+					})
+					if enabled[b] {
+						c.R.Ok(rule, k2, c.M.InstrPos(mu), "default applied to a property in use", "reached only with the property's Disabled flag known to be false (tested here, or implied by the outcome of the helper that works the value out)")
+					} else {
+						c.R.Bad(rule, k2, c.M.InstrPos(mu), "a disabled property that the input leaves out is given a value",
+							"the store of the stand-in value is not reached only with Disabled == false: the property's Unserialize refuses a disabled property, so every input that leaves the property out is refused as using it")
+					}
 				} else if scratch {
 					c.R.Ok(rule, k, c.M.InstrPos(mu), "default worked out", "stored into a map made in this function that receives nothing but defaults: there is no supplied value in it")
 				} else {
